@@ -1870,13 +1870,13 @@ impl<'a> Gen<'a> {
         let fault_panic_real = r.below(3) == 0 && !panickers.is_empty();
         let fault_session = r.below(3) == 0;
         let session_thread = r.below(nthreads);
-        // *Twin workloads* (a quarter of the executions): every caller compiles the same
+        // *Twin workloads* (a third of the executions): every caller compiles the same
         // program or a near-duplicate of it (a build tool or a server compiling one model on
         // several threads), so that the callers run through the same code - the same memo,
         // the same lock - at the same time. Drawn from a PRNG stream of its own so that the
         // other executions of a seed stay what they were.
         let mut tr = Rng::new(mix(s, 0x7717));
-        let theme: Option<String> = if tr.below(4) == 0 {
+        let theme: Option<String> = if tr.below(3) == 0 {
             Some(match tr.below(8) {
                 0..=2 => tr.pick(DIALECT_SENSITIVE).to_string(),
                 3 => tpl_program(&mut tr),
